@@ -273,6 +273,10 @@ PLANS["C20"] = {
         MC("close-rwlock-recursive", "CloverClose", "MC_Close_rwlock.cfg", workers=4, expect_violation="Deadlock"),
         # the handle is closed by one goroutine while others use it: every call returns (no panic, no call that waits for
         # ever), Close takes effect at one instant, and the calls after it fail (TraceLin with the open flag)
+        # ... and in bulk, without a history to explain: 4-8 goroutines run 150 operations each (mostly operations built on
+        # other public operations) while one closes the handle; per trial: every call returned, none panicked, none
+        # succeeded after Close had returned (CloseRaceOk, the properties CloverClose proves of the "count" design)
+        AUX("closerace", "closerace", (90, 1200), chunk=30, seed_off=87),
         {"kind": "lin", "name": "lin-close", "n": (150, 3000), "maxg": 5, "ops": 8, "family": "close", "chunk": 15, "seed_off": 83},
         # the public query / index / document APIs called directly
         AUX("satisfy", "satisfy", (250, 5000), invariants=["InvAuxNoPanic"]),
